@@ -448,8 +448,10 @@ class StorageReplayer:
                          for o, row in mo['ser'].items()}
             mo['revs'] = {o: tuple(t for t in row if t in visible.get(o, ())) for o, row in mo['revs'].items()}
             self._visible = visible
+            maxp = max(t['tid'] for t in hist if t['status'] == 'p')
         else:
             self._visible = None
+            maxp = None
         try:
             real = self.observe(mo, first)
         except Exception as ex:
@@ -465,6 +467,15 @@ class StorageReplayer:
             mo['iter'] = tuple(dict(t, recs=tuple(sorted(t['recs'], key=lambda x: x['oid']))) for t in mo['iter'])
         if ltid is not None:
             mo = dict(mo, last=ltid)
+        if maxp is not None:
+            # ... and where a snapshot below the pack time holds no state of an object, "unknown object" and "no
+            # revision that early" are not told apart (which un-creation markers and older records survive is the
+            # packer's business; nothing is promised about snapshots older than the pack time)
+            def nodata(tab):
+                return {o: {t: ({'k': 'no-state'} if (t <= maxp + 1 and a['k'] in ('keyerr', 'none')) else a)
+                            for t, a in dict(row).items()} for o, row in tab.items()}
+            mo = dict(mo, lb=nodata(mo['lb']))
+            real = dict(real, lb=nodata(real['lb']))
         out = []
         diff('obs', mo, real, out)
         return out
